@@ -671,6 +671,17 @@ def install(eng):
         a = _asarray(eng, a)
         return const_arr(a.shape, 0, a.dtype if dtype is None else dtype_arg(dtype))
 
+    @model("numpy.full_like")
+    def _full_like(eng, a, fill_value, dtype=None):
+        a = _asarray(eng, a)
+        v = M.unwrap(fill_value)
+        dt = a.dtype if dtype is None else dtype_arg(dtype)
+        if isinstance(v, I.Arr):
+            raise Unsupported("full_like with an array fill value")
+        if dt == "int":
+            v = M.trunc_to_int(v)          # the fill value is cast to the prototype's integer type (toward zero)
+        return I.Arr(a.shape, lambda *i: v, dt)
+
     @model("numpy.ones_like")
     def _ones_like(eng, a, dtype=None):
         a = _asarray(eng, a)
